@@ -117,12 +117,37 @@ Proof.
     + right. cbn [existsb] in H. now rewrite Ea in H.
 Qed.
 
+(** [insert_at]: an element the loop passes over may stand anywhere *)
+Lemma fold_insert_at : forall {A B} (f : A -> B -> A) (x : B), (forall a, f a x = a) ->
+  forall n l a, fold_left f (insert_at n x l) a = fold_left f l a.
+Proof.
+  intros A B f x H. induction n as [|n IH]; intros l a; [cbn; now rewrite H|].
+  destruct l as [|y r]; [cbn; now rewrite H|]. cbn [insert_at fold_left]. apply IH.
+Qed.
+
+Lemma find_insert_at : forall {A} (p : A -> bool) (x : A), p x = true ->
+  forall n l, (forall y, In y l -> p y = false) -> find p (insert_at n x l) = Some x.
+Proof.
+  intros A p x Hx. induction n as [|n IH]; intros l H; [cbn; now rewrite Hx|].
+  destruct l as [|y r]; [cbn; now rewrite Hx|]. cbn [insert_at find]. rewrite (H y) by now left. apply IH. intros; apply H; now right.
+Qed.
+
+Lemma existsb_insert_at : forall {A} (p : A -> bool) (x : A), p x = true -> forall n l, existsb p (insert_at n x l) = true.
+Proof.
+  intros A p x Hx. induction n as [|n IH]; intros l; [cbn; now rewrite Hx|].
+  destruct l as [|y r]; [cbn; now rewrite Hx|]. cbn [insert_at existsb]. rewrite IH. apply orb_true_r.
+Qed.
+
+Lemma insert_at_not_nil : forall {A} n (x : A) l, insert_at n x l <> [].
+Proof. intros A [|n] x [|y r]; discriminate. Qed.
+
 Section Sim.
 Variable E : env.
 Variable fx fi fd : bool.
 Variable v : version.
 Variable ist : list attr -> istyle.
 Variable cm us : bool.
+Variable mcpos rrpos : nat.
 
 Notation V := (vns v).
 
@@ -792,21 +817,22 @@ Proof.
 Qed.
 
 Lemma enc_sim : forall cs x, enc_ok1 x = true ->
-  load_encapsulation1 fd cs (conv_encapsulation v cm x) = load_encapsulation cs x.
+  load_encapsulation1 fd cs (conv_encapsulation v cm rrpos x) = load_encapsulation cs x.
 Proof.
   intros cs x H. unfold enc_ok1 in H. bsplit_all.
   match goal with Hc : is_cellml20 "encapsulation" x = true |- _ => apply is_element_inv in Hc; destruct Hc as (attrs & ks & ->) end.
-  cbn [xml_attrs xml_kids] in *. unfold conv_encapsulation, load_encapsulation1, load_encapsulation. cbn [xml_kids fold_left].
+  cbn [xml_attrs xml_kids] in *. unfold conv_encapsulation, load_encapsulation1, load_encapsulation. cbn [xml_kids].
   assert (Hrr : forall st, load_encapsulation_kid1 fd st (relationship_ref v) = st).
   { intros st. unfold load_encapsulation_kid1, relationship_ref.
     rewrite (is_1x_other_name "component_ref" "relationship_ref") by reflexivity. now rewrite is_1x_V. }
-  rewrite Hrr, enc_kids_sim by assumption. reflexivity.
+  rewrite (fold_insert_at _ _ Hrr), enc_kids_sim by assumption. reflexivity.
 Qed.
 
-Lemma enc_is_rel : forall x, is_enc_rel (conv_encapsulation v cm x) = true \/ (forall ns nm a k, x <> Elem ns nm a k).
+Lemma enc_is_rel : forall x, is_enc_rel (conv_encapsulation v cm rrpos x) = true \/ (forall ns nm a k, x <> Elem ns nm a k).
 Proof.
   intros [ns nm attrs ks| |]; [left|right; discriminate|right; discriminate].
-  unfold conv_encapsulation, is_enc_rel. cbn [xml_kids existsb]. unfold relationship_ref at 1. rewrite is_1x_V. reflexivity.
+  unfold conv_encapsulation, is_enc_rel. cbn [xml_kids]. apply existsb_insert_at.
+  unfold relationship_ref. rewrite is_1x_V. reflexivity.
 Qed.
 
 (** ** connection *)
@@ -844,21 +870,30 @@ Proof.
 Qed.
 
 Lemma conn_sim : forall st x, conn_ok1 x = true ->
-  load_connection1 fx fd st (conv_connection v cm x) = load_connection fx st x.
+  load_connection1 fx fd st (conv_connection v cm mcpos x) = load_connection fx st x.
 Proof.
   intros st x H. unfold conn_ok1 in H. bsplit_all.
   match goal with Hc : is_cellml20 "connection" x = true |- _ => apply is_element_inv in Hc; destruct Hc as (attrs & ks & ->) end.
   cbn [xml_attrs xml_kids] in *. unfold no_kids in *. cbn [xml_kids] in *.
   destruct ks as [|k0 ks']; [discriminate|].
-  unfold conv_connection, load_connection1, load_connection, To1xDefs.V. cbn [xml_kids find xml_attrs].
-  rewrite is_1x_V. unfold xattrs. cbn [xml_attrs]. erewrite eff_conv_id by eassumption. unfold conn_attrs0.
+  unfold conv_connection, load_connection1, load_connection, To1xDefs.V. cbn [xml_kids].
+  set (mc := Elem V "map_components" (map (conv_id cm) attrs) []).
+  set (cmv := fun k : xml => if is_cellml20 "map_variables" k then retag v (conv_id cm) k else k).
+  assert (Hfind : find (is_1x "map_components") (insert_at mcpos mc (map cmv (k0 :: ks'))) = Some mc).
+  { apply find_insert_at; [apply is_1x_V|]. intros y Hy. apply in_map_iff in Hy. destruct Hy as (k & <- & Hk).
+    assert (Hmk : mapvar_ok1 k = true) by by_forallb. unfold mapvar_ok1 in Hmk. bsplit_all.
+    match goal with Hc : is_cellml20 "map_variables" k = true |- _ => pose proof Hc as Hi; apply is_element_inv in Hi; destruct Hi as (a1 & k1 & ->) end.
+    unfold cmv. replace (is_cellml20 "map_variables" (Elem CELLML_2_0_NS "map_variables" a1 k1)) with true by reflexivity.
+    unfold retag. apply is_1x_other_name. reflexivity. }
+  assert (Hx : xattrs mc = map (conv_id cm) attrs) by (unfold mc, xattrs; cbn [xml_attrs]; eapply eff_conv_id; eassumption).
+  rewrite Hfind, Hx. unfold conn_attrs0.
   rewrite (fold_left_map_ext load_conn_attr1 load_conn_attr (conv_id cm) (fun a => a_ns a = "" /\ In (a_name a) ["component_1"; "component_2"; "id"])).
   2:{ intros st0 a [Qa Qb]. now apply conn_attr_sim. }
   2:{ apply Forall_forall. intros a Ha. eapply names_in_each; eassumption. }
-  cbn [fold_left].
-  assert (Hmc : load_conn_kid1 fx fd ckid_acc0 (Elem V "map_components" (map (conv_id cm) attrs) []) = ckid_acc0).
-  { unfold load_conn_kid1. cbn [xml_kids flat_map]. rewrite (is_1x_other_name "map_variables" "map_components") by reflexivity. reflexivity. }
-  rewrite Hmc.
+  assert (Hmc : forall st0, load_conn_kid1 fx fd st0 mc = st0).
+  { intros [m f m1 m2 u is]. unfold load_conn_kid1, mc. cbn [xml_kids flat_map].
+    rewrite (is_1x_other_name "map_variables" "map_components") by reflexivity. cbn. now rewrite !app_nil_r. }
+  rewrite (fold_insert_at _ _ Hmc).
   rewrite (fold_left_map_ext (load_conn_kid1 fx fd) (load_conn_kid fx) _ (fun k => mapvar_ok1 k = true));
     [reflexivity|intros; now apply conn_kid_sim|now apply forallb_Forall].
 Qed.
@@ -869,7 +904,7 @@ Proof. intros. unfold is_cellml20, is_element. now rewrite H, andb_false_r. Qed.
 
 Definition cv (st : model_acc) : model_acc :=
   {| ma_units := ma_units st; ma_comps := ma_comps st; ma_imports := ma_imports st; ma_encid := ma_encid st;
-     ma_encs := map (conv_encapsulation v cm) (ma_encs st); ma_conns := map (conv_connection v cm) (ma_conns st);
+     ma_encs := map (conv_encapsulation v cm rrpos) (ma_encs st); ma_conns := map (conv_connection v cm mcpos) (ma_conns st);
      ma_issues := ma_issues st |}.
 
 Definition acc_inv (st : model_acc) : Prop :=
@@ -879,7 +914,7 @@ Lemma Forall_snoc : forall {A} (P : A -> Prop) l x, Forall P l -> P x -> Forall 
 Proof. intros. apply Forall_app. split; [assumption|now constructor]. Qed.
 
 Lemma model_kid_sim : forall st k, model_kid_ok1 k = true -> acc_inv st ->
-  load_model_kid1 E fi fd (cv st) (conv_model_kid v ist cm us k) = cv (load_model_kid E st k)
+  load_model_kid1 E fi fd (cv st) (conv_model_kid v ist cm us mcpos rrpos k) = cv (load_model_kid E st k)
   /\ acc_inv (load_model_kid E st k).
 Proof.
   intros st k H [Ie Ic]. unfold model_kid_ok1 in H.
@@ -931,7 +966,7 @@ Proof.
     rewrite (is_20_other_name "component" "connection"), (is_20_other_name "units" "connection"),
       (is_20_other_name "import" "connection"), (is_20_other_name "encapsulation" "connection") by reflexivity.
     replace (is_cellml20 "connection" (Elem CELLML_2_0_NS "connection" attrs ks)) with true by reflexivity.
-    assert (Hcc : exists k', conv_connection v cm (Elem CELLML_2_0_NS "connection" attrs ks) = Elem V "connection" [] k') by (unfold conv_connection; eauto).
+    assert (Hcc : exists k', conv_connection v cm mcpos (Elem CELLML_2_0_NS "connection" attrs ks) = Elem V "connection" [] k') by (unfold conv_connection; eauto).
     destruct Hcc as (k' & Hcc). rewrite Hcc.
     rewrite (is_1x_other_name "component" "connection"), (is_1x_other_name "units" "connection"),
       (is_1x_other_name "import" "connection"), (is_1x_other_name "group" "connection") by reflexivity.
@@ -952,7 +987,7 @@ Proof.
     replace (is_cellml20 "encapsulation" (Elem CELLML_2_0_NS "encapsulation" [] (k0 :: ks'))) with true by reflexivity.
     destruct (enc_is_rel (Elem CELLML_2_0_NS "encapsulation" [] (k0 :: ks'))) as [Hrel|Hno]; [|exfalso; eapply Hno; reflexivity].
     rewrite Hrel.
-    assert (Hcc : exists a' k', conv_encapsulation v cm (Elem CELLML_2_0_NS "encapsulation" [] (k0 :: ks')) = Elem V "group" a' k') by (unfold conv_encapsulation; eauto).
+    assert (Hcc : exists a' k', conv_encapsulation v cm rrpos (Elem CELLML_2_0_NS "encapsulation" [] (k0 :: ks')) = Elem V "group" a' k') by (unfold conv_encapsulation; eauto).
     destruct Hcc as (a' & k' & Hcc). rewrite Hcc.
     rewrite (is_1x_other_name "component" "group"), (is_1x_other_name "units" "group"), (is_1x_other_name "import" "group") by reflexivity.
     rewrite !is_20_V, is_1x_V, <- Hcc. cbn [xml_attrs xml_kids fold_left fst snd].
@@ -961,7 +996,7 @@ Proof.
 Qed.
 
 Lemma model_kids_sim : forall ks st, forallb model_kid_ok1 ks = true -> acc_inv st ->
-  fold_left (load_model_kid1 E fi fd) (map (conv_model_kid v ist cm us) ks) (cv st) = cv (fold_left (load_model_kid E) ks st)
+  fold_left (load_model_kid1 E fi fd) (map (conv_model_kid v ist cm us mcpos rrpos) ks) (cv st) = cv (fold_left (load_model_kid E) ks st)
   /\ acc_inv (fold_left (load_model_kid E) ks st).
 Proof.
   induction ks as [|k r IH]; intros st H Hi; [split; [reflexivity|assumption]|].
@@ -970,7 +1005,7 @@ Proof.
 Qed.
 
 Lemma conns_sim : forall cs st, Forall (fun c => conn_ok1 c = true) cs ->
-  fold_left (load_connection1 fx fd) (map (conv_connection v cm) cs) st = fold_left (load_connection fx) cs st.
+  fold_left (load_connection1 fx fd) (map (conv_connection v cm mcpos) cs) st = fold_left (load_connection fx) cs st.
 Proof.
   intros cs st H. apply (fold_left_map_ext _ _ _ (fun c => conn_ok1 c = true)); [|assumption].
   intros st0 c Hc. now apply conn_sim.
@@ -980,7 +1015,7 @@ Qed.
     1.x rewriting returns the model the strict 2.0 parser returns on the tree itself, and the same issues after the
     one transformation message *)
 Theorem sim_load : forall t, conv_ok t = true -> namespace_issues t = [] ->
-  load1x E fx fi fd false (conv1x v ist cm us false t)
+  load1x E fx fi fd false (conv1x v ist cm us false mcpos rrpos t)
   = (fst (load E fx true t), msg :: snd (load E fx true t)).
 Proof.
   intros t H Hns. unfold conv_ok in H. bsplit_all.
